@@ -32,6 +32,7 @@ CONSTANTS
   Unknowns,  \* ways of making a class name unknown (besides "none")
   Fixes,     \* repairs contained in the implementation under test
   Known,     \* deviation identifiers of listed known findings (excused)
+  Detail,    \* TRUE: `out` carries the facts about the loaded object (for conformance); FALSE: only the verdicts
   OnlyChains \* {} = every chain of the bounded universe; otherwise the chains to instantiate (a sample of them)
 
 VARIABLES phase, inst, out
@@ -379,7 +380,7 @@ Run(i) ==
         LoaderPrecedence |-> (s1.exc = "-" /\ ld.used # "none") => ld.used = ExpectedLoader(i),
         UnknownIsValueError |-> (~known /\ s1.exc = "-") => (stage = "load" /\ exc = "ValueError")]
   IN [stage |-> stage, exc |-> exc,
-      facts |-> facts,
+      facts |-> IF Detail THEN facts ELSE {},
       resave |-> resave, stable |-> stable,
       used |-> IF s1.exc = "-" THEN ld.used ELSE "none",
       dev |-> s1.dev \cup (IF s1.exc = "-" THEN ld.dev \cup (IF ld.exc = "-" THEN s2.dev ELSE {}) ELSE {}),
